@@ -1204,15 +1204,22 @@ class _Abstraction(object):
         hit = self.top.get(k)
         if hit is None:
             s = z3.simplify(t, som=True)      # sum-of-monomials: (1+j)*w - j*w cancels to w before products are named
-            hit = (self.go(s), t, s)
+            g = self.go(s)
+            hit = (g, t, s, not g.eq(s))
             self.top[k] = hit
         return hit[0]
 
+    def is_nonlinear(self, t):
+        hit = self.top.get(t.get_id())
+        return True if hit is None else hit[3]
+
 
 def _abstract_nl(terms, ab=None):
+    """-> (abstracted terms + sign lemmas, number of the given terms that contain a nonlinear sub-term)"""
     ab = ab or _Abstraction()
     out = [ab.term(t) for t in terms]
-    return out + list(ab.lemmas), len(ab.fresh)
+    nl = sum(1 for t in terms if ab.is_nonlinear(t))
+    return out + (list(ab.lemmas) if nl else []), nl
 
 
 def _forked(assertions, cpu_s, want_model=False, tactic=None):
@@ -1229,7 +1236,8 @@ def _forked(assertions, cpu_s, want_model=False, tactic=None):
                 sl = z3.Then(*tactic).solver()
             else:
                 sl = z3.Solver()
-            sl.set('timeout', int(cpu_s * 1000))
+            # no z3 timeout here: z3 implements it with a timer thread, and thread state does not survive fork();
+            # the CPU rlimit (and the parent's wall-clock deadline) bound the query instead
             for a in assertions:
                 sl.add(a)
             res = sl.check()
@@ -1249,7 +1257,7 @@ def _forked(assertions, cpu_s, want_model=False, tactic=None):
             os._exit(0)
     os.close(w)
     buf = b''
-    deadline = time.time() + max(30.0, cpu_s * 8)
+    deadline = time.time() + cpu_s * 4 + 10
     try:
         while True:
             left = deadline - time.time()
